@@ -85,7 +85,7 @@ def run_history(workdir, hist, hashseed, timeout=900):
     return json.loads(r.stdout)
 
 
-TS = re.compile(r"^Generated on .*$", re.M)
+TS = re.compile(r"^(\W*)Generated on .*$", re.M)
 
 
 def canon_text(t):
